@@ -65,13 +65,17 @@ CLAIMED = {
              "ffi.error exactly when a checked struct's computed field offset, total size or alignment differs from "
              "the compiler's, and adopt the compiler's numbers silently for a struct declared with '...'. (4) "
              "read_global_var / write_global_var convert from / to the address that fetch_global_var_addr returns -- "
-             "the stored one, or whatever the module's address function returns at that moment.",
+             "the stored one, or whatever the module's address function returns at that moment. (5) The flag word "
+             "Recompiler._struct_ctx prints (which declarations are checked at all) is decided by a segment contract run on "
+             "every combination of outcomes of the tests the segment makes: CHECK_FIELDS exactly for own, non-opaque "
+             "declarations without '...' and without anonymous struct fields; PACKED exactly for own packed=True; "
+             "pack=N refused; EXTERNAL exactly for types from an included FFI.",
         design_ref='DESIGN.md section 4 C12',
         note=COMMON_NOTE + "Not decided (generated programs and the compiler are outside contracts on cffi's functions): "
              "that the emitted offsetof()/sizeof() expressions and wrappers, once compiled, deliver the compiler's "
-             "numbers; calls returning what the C function returns (C13); the generator's flag logic is sampled on five "
-             "sentinel declarations (bounded stand-in, reported as such); do_realize_lazy_struct's field-size check and "
-             "lib_build_and_cache_attr's global-variable size check are not under contract. Known finding "
+             "numbers; calls returning what the C function returns (C13); one iteration of do_realize_lazy_struct's field loop "
+             "(the per-field size check) is under a loop-body contract, what surrounds it is not; "
+             "lib_build_and_cache_attr's global-variable size check is not under contract. Known finding "
              "C12-enum-unchecked: enumerators of an enum without '...' are not checked (the existing tests pin it).",
         technique="contract-based deductive verification: generated getters cut from the real recompiler's output and "
                   "instantiated per integer type, loop-body contracts, ghost call traces; cvc (clang AST -> z3/cvc5)",
